@@ -13,8 +13,9 @@ CONSTANTS DefaultKinds,     \* the literal kinds a field default may have ("node
 Hows == {"python_name", "graphql_name"}
 Givens == {"unset", "null", "value"}
 Fields == [dflt : DefaultKinds, nonnull : BOOLEAN, name : NameClasses]
-\* `T! = null` is not a valid schema
-ValidField(f) == ~(f.nonnull /\ f.dflt = "null")
+\* `T! = null` is not a valid schema, whatever T is (a scalar, a list, a nested list, a list of enums, an input object)
+NullDefaultKinds == {"null", "list_null", "nested_list_null", "enum_list_null", "object_null"}
+ValidField(f) == ~(f.nonnull /\ f.dflt \in NullDefaultKinds)
 \* fields without a default: of a built-in type ("nodefault"), of a custom scalar the configuration does not map (emitted as
 \* Any: "nodefault_unmapped"), of an enum / input-object type ("nodefault_enum", "nodefault_object")
 NoDefaultKinds == {"nodefault", "nodefault_unmapped", "nodefault_enum", "nodefault_object", "nodefault_list_nullable_items",
